@@ -22,6 +22,30 @@ Theorem antiMEV_InvTwoBlocksAccepted (RM RMFault RMDead : list Z) :
 Proof. exact (Proofs_antiMEV.InvTwoBlocksAccepted_holds RM RMFault RMDead). Qed.
 Print Assumptions antiMEV_InvTwoBlocksAccepted.
 
+
+(* type correctness of both models in every reachable state, for EVERY RM, RMFault, RMDead (no size bound, no view bound) *)
+Theorem dbft_TypeOK (RM RMFault RMDead : list Z) :
+  forall s, Proofs_dbft.Reach RM RMFault RMDead s -> Spec_dbft.d_TypeOK RM s = true.
+Proof. exact (Proofs_dbft.TypeOK_holds RM RMFault RMDead). Qed.
+Print Assumptions dbft_TypeOK.
+Theorem antiMEV_TypeOK (RM RMFault RMDead : list Z) :
+  forall s, Proofs_antiMEV.Reach RM RMFault RMDead s -> Spec_antiMEV.d_TypeOK RM s = true.
+Proof. exact (Proofs_antiMEV.TypeOK_holds RM RMFault RMDead). Qed.
+Print Assumptions antiMEV_TypeOK.
+
+(* at most F faulty or dead nodes, for every duplicate-free RM, when the permitted faulty and dead nodes number at most F
+   together (every shipped configuration: one of the two sets is empty and the other has one element, F = 1) *)
+Theorem dbft_InvFaultNodesCount (RM RMFault RMDead : list Z) :
+  NoDup RM -> Z.of_nat (List.length RMFault) + Z.of_nat (List.length RMDead) <= Spec_dbft.d_F RM ->
+  forall s, Proofs_dbft.Reach RM RMFault RMDead s -> Spec_dbft.d_InvFaultNodesCount RM s = true.
+Proof. exact (Proofs_dbft.InvFaultNodesCount_holds RM RMFault RMDead). Qed.
+Print Assumptions dbft_InvFaultNodesCount.
+Theorem antiMEV_InvFaultNodesCount (RM RMFault RMDead : list Z) :
+  NoDup RM -> Z.of_nat (List.length RMFault) + Z.of_nat (List.length RMDead) <= Spec_antiMEV.d_F RM ->
+  forall s, Proofs_antiMEV.Reach RM RMFault RMDead s -> Spec_antiMEV.d_InvFaultNodesCount RM s = true.
+Proof. exact (Proofs_antiMEV.InvFaultNodesCount_holds RM RMFault RMDead). Qed.
+Print Assumptions antiMEV_InvFaultNodesCount.
+
 (* formal-models/dbft2.1_threeStagedCV/dbftCV3.tla violates InvTwoBlocksAccepted with the permitted fault set
    RMFault = {3} (known finding D13): the stored TLC behaviour is a behaviour of the generated model (d_Init on its
    first state, d_Next on every step) and its last state falsifies the generated invariant. *)
